@@ -231,6 +231,14 @@ Theorem C05_bytes_reader : forall cf s rst off pk d,
   parse_str_raw (mkEnv RIo TEof cf) (mkSt (flat_map render_piece s ++ 34 :: rst) off pk d)
   = Ok (str_decode_wtf8 s, false, mkSt rst (off + length (flat_map render_piece s) + 1) false d).
 Proof. exact parse_str_raw_complete_io. Qed.
+(* conversely: whatever is accepted as bytes is such a literal, and the result is its WTF-8 decoding *)
+Theorem C05_bytes_sound : forall cf s0 b bw s1,
+  Forall (fun x => (x < 256)%N) (rest s0) ->
+  parse_str_raw (mkEnv RSlice TEof cf) s0 = Ok (b, bw, s1) ->
+  exists s, rest s0 = flat_map render_piece s ++ 34 :: rest s1 /\ str_ok_raw s = true /\ str_decode_wtf8 s = b
+         /\ (off s1 = off s0 + length (flat_map render_piece s) + 1)%nat /\ pk s1 = false /\ depth s1 = depth s0
+         /\ bw = forallb (fun p => match p with PRaw _ => true | _ => false end) s.
+Proof. exact parse_str_raw_sound. Qed.
 (* the same decoding applies: where the text decoding is defined the two agree *)
 Theorem C05_bytes_extends_text : forall n s, (length s <= n)%nat -> forall b,
   str_decode s = Some b -> str_decode_wtf8 s = b.
@@ -334,6 +342,7 @@ Print Assumptions C05_borrowed_subslice.
 Print Assumptions C05_bytes.
 Print Assumptions C05_bytes_str.
 Print Assumptions C05_bytes_reader.
+Print Assumptions C05_bytes_sound.
 Print Assumptions C05_bytes_extends_text.
 Print Assumptions C05_utf8_safe.
 Print Assumptions C05_str_eq_slice.
